@@ -159,6 +159,7 @@ type c03Case struct {
 	Table      gen.TableSpec `json:"table"`
 	Decoration string        `json:"decoration"`
 	Aligns     []int         `json:"alignment_column0_then_columns,omitempty"`
+	Mode       string        `json:"mode,omitempty"`
 }
 
 // renderText renders t under decoration nd through a fresh wrapper.
@@ -166,9 +167,21 @@ func renderText(t tabular.Table, nd namedDeco) (string, error) {
 	return texttable.Wrap(t).SetDecoration(nd.d).Render()
 }
 
-func c03Check(c *Ctx, spec *gen.TableSpec, decos []namedDeco, sample bool) {
+func c03Check(c *Ctx, spec *gen.TableSpec, decos []namedDeco, st *stage, sample bool) {
 	m := textModelOf(spec)
-	b := spec.Build(tabular.New())
+	t0 := tabular.New()
+	reused := texttable.Wrap(t0)
+	var b *gen.Built
+	if st != nil {
+		// one wrapper, created before the table is built, renders the partial table, the complete
+		// table with items in their earlier state, and then (judged) the final table under every decoration
+		b = spec.BuildStaged(t0, st.At, func() { reused.Render() })
+		reused.SetDecoration(decos[len(decos)-1].d).Render()
+		b.Finalize()
+		c.Rec.Count("staged_cases(render, change, render again through the same wrapper)", 1)
+	} else {
+		b = spec.Build(t0)
+	}
 	widths := model.ColumnWidths(m, length.StringCells)
 	multi, wide := false, false
 	for i := range spec.Rows {
@@ -185,8 +198,17 @@ func c03Check(c *Ctx, spec *gen.TableSpec, decos []namedDeco, sample bool) {
 	nontrivial := spec.NBody() > 0 && (multi || wide)
 	for _, nd := range decos {
 		cs := &c03Case{Table: *spec, Decoration: nd.name}
+		if st != nil {
+			cs.Mode = st.Note
+		}
 		c.Case = cs
-		out, err := renderText(b.T, nd)
+		var out string
+		var err error
+		if st != nil {
+			out, err = reused.SetDecoration(nd.d).Render()
+		} else {
+			out, err = renderText(b.T, nd)
+		}
 		c.Rec.Eval(gen.Hash64(spec.Shape(), fmt.Sprint(spec.HeaderTexts()), fmt.Sprint(textsOf(spec)), nd.name), nontrivial)
 		if err != nil {
 			if out != "" {
@@ -217,7 +239,7 @@ func c03Item(r *gen.R) gen.ItemSpec {
 
 func c03Random(c *Ctx, i int, r *gen.R) {
 	spec := r.Table(gen.TableOpts{MaxCols: 5, MaxRows: 6, ZeroHeaderOK: true, MinCols: 1, Item: c03Item})
-	c03Check(c, &spec, allDecorations(c, r, 2), true)
+	c03Check(c, &spec, allDecorations(c, r, 2), drawStage(r, len(spec.Rows), spec.NCols()), true)
 }
 
 var c03Atoms = []string{"", "a", "\n", "\u4e16", "\u0301", "a\nbb", "\u200b", "\U0001F1E9\U0001F1EA", "\xff", "ab\n\ncd\n", " ", "\uff9e"}
@@ -238,7 +260,11 @@ func c03Pairs(c *Ctx, i int, r *gen.R) {
 		spec.Rows = []gen.RowSpec{{Items: []gen.ItemSpec{gen.StrItem("x")}, Mode: gen.ModeAppendThenAdd}}
 		spec.HeaderAt = 1
 	}
-	c03Check(c, &spec, allDecorations(c, r, 1), i%60 == 7)
+	var st *stage
+	if i%2 == 1 {
+		st = &stage{At: i % 4, Note: "staged: wrapper reused"}
+	}
+	c03Check(c, &spec, allDecorations(c, r, 1), st, i%60 == 7)
 }
 
 func init() {
